@@ -522,7 +522,7 @@ def fuzz_custom(tier: str, seed: int) -> ShardResult:
     if tier != "thorough":
         res.extra["note"] = "atheris engine runs in the thorough tier only"
         return res
-    runs = int(os.environ.get("VERIF_C16_FUZZ_RUNS", "20000"))
+    runs = int(os.environ.get("VERIF_C16_FUZZ_RUNS", "15000"))
     with tempfile.TemporaryDirectory(prefix="verif_c16_fuzz_") as d:
         out = os.path.join(d, "out.json")
         proc = subprocess.run([sys.executable, "-m", "vlib.props.c16", "--fuzz", str(runs), str(seed), out], capture_output=True, text=True, timeout=3600, check=False)
@@ -577,6 +577,8 @@ def _fuzz_main(runs: int, seed: int, out: str):  # pragma: no cover - separate p
     @given(strategy)
     def test(case):
         state["evaluations"] += 1
+        if state["evaluations"] % 50 == 0:
+            dump()  # libFuzzer leaves through os._exit: keep the result file current
         fn = prop_spec if "root" in case else prop_roundtrip
         try:
             fn(case)
@@ -586,12 +588,11 @@ def _fuzz_main(runs: int, seed: int, out: str):  # pragma: no cover - separate p
             if v.clause not in seen and len(seen) < 20:
                 seen.add(v.clause)
                 state["failures"].append({"sub": "spec" if "root" in case else case["fmt"], "clause": v.clause, "message": v.message[:1000], "case": to_jsonable(case)})
+                dump()
 
-    atheris.Setup([sys.argv[0], f"-runs={runs}", f"-seed={seed % 2**31}", "-max_len=4096"], test.hypothesis.fuzz_one_input)
-    import atexit
-
-    state["note"] = f"atheris {getattr(atheris, '__version__', '?')} via hypothesis.fuzz_one_input, -runs={runs}"
-    atexit.register(dump)
+    state["note"] = f"atheris via hypothesis.fuzz_one_input, -runs={runs} (evaluations = inputs that decoded to a complete case)"
+    dump()
+    atheris.Setup([sys.argv[0], f"-runs={runs}", f"-seed={seed % 2**31}", "-max_len=4096", "-len_control=0"], test.hypothesis.fuzz_one_input)
     atheris.Fuzz()
 
 
